@@ -149,7 +149,7 @@ def list_event(lha, archive, members, mode, quiet, filters, now, mtime):
     os.utime(archive, (mtime, mtime))
     cmd = mode + ("q%d" % quiet if quiet else "")
     env = V.run_env(TEST_NOW_TIME=str(now))
-    p = subprocess.run([lha.encode(), cmd.encode(), archive.encode()] + [bytes(f) for f in filters], capture_output=True, env=env, stdin=subprocess.DEVNULL, timeout=120)
+    p = V.run_bounded([lha.encode(), cmd.encode(), archive.encode()] + [bytes(f) for f in filters], capture_output=True, env=env, stdin=subprocess.DEVNULL, timeout=120)
     ms = []
     sel_p = sel_l = 0
     for m in members:
